@@ -434,6 +434,22 @@ def _dispatch_constructs(ix, f, param, r_single, depth=0):
                 return (eq and r_.value == r_single), (eq and r_.value != r_single)
         return False, False
 
+    def single_branch(test, _d=0):
+        """'body' / 'orelse' / None: the branch of `if test:` that is taken exactly for a single item - the rank test may be
+        written `p.ndim == k`, `p.ndim != k`, `not ...`, or through a name bound once to such a test (`single = p.ndim == 2`)"""
+        if _d > 4:
+            return None
+        if isinstance(test, ast.UnaryOp) and isinstance(test.op, ast.Not):
+            w = single_branch(test.operand, _d + 1)
+            return {"body": "orelse", "orelse": "body"}.get(w)
+        if isinstance(test, ast.Name) and test.id in fn.single and len(fn.single[test.id]) == 1 and test.id not in fn.taint:
+            return single_branch(fn.single[test.id][0], _d + 1)
+        if isinstance(test, ast.Compare) and len(test.ops) == 1 and isinstance(test.ops[0], ast.NotEq):
+            s1, _o = rank_test(ast.Compare(left=test.left, ops=[ast.Eq()], comparators=test.comparators))
+            return "orelse" if s1 else None
+        s1, _o = rank_test(test)
+        return "body" if s1 else None
+
     def expr_constructs(expr, single):
         if single:
             return
@@ -444,6 +460,10 @@ def _dispatch_constructs(ix, f, param, r_single, depth=0):
                 if len(args) >= 2:
                     for x in ast.walk(args[1]):
                         clip_bounds.add(id(x))
+                for k_ in c.keywords:
+                    if k_.arg in ("max", "a_max"):
+                        for x in ast.walk(k_.value):
+                            clip_bounds.add(id(x))
         for c in ast.walk(expr):
             if not (isinstance(c, ast.Call) and isinstance(c.func, ast.Attribute) and c.func.attr in FULL_REDUCERS + ALL_AXES_MOVERS):
                 continue
@@ -516,9 +536,9 @@ def _dispatch_constructs(ix, f, param, r_single, depth=0):
                 helper_constructs(c_, single)
             if isinstance(st, ast.If):
                 expr_constructs(st.test, single)
-                s1, other = rank_test(st.test)
-                block(st.body, single or s1)
-                block(st.orelse, single)
+                which = single_branch(st.test)
+                block(st.body, single or which == "body")
+                block(st.orelse, single or which == "orelse")
             elif isinstance(st, (ast.For, ast.While)):
                 block(st.body, single)
                 block(st.orelse, single)
